@@ -23,11 +23,12 @@ BiasOk(r) ==
          /\ MustErr(num, es) => IsErr(r.out)                            \* a count that does not fit its field is an error
          /\ r.out = "ok" =>
               /\ ~MustErr(num, es)
-              \* bit-exact list on the wire, followed only by zero padding to the byte boundary
-              /\ LET enc == Enc(num, es) IN
-                 /\ Prefix(enc, r.listbits)
-                 /\ Len(r.listbits) - Len(enc) < 8
-                 /\ AllZero(SubSeq(r.listbits, Len(enc) + 1, Len(r.listbits)))
+              \* bit-exact list on the wire (one group per satellite), followed only by zero padding to the byte boundary
+              /\ OneGroupEach(num, es) =>
+                   LET enc == Enc(num, es) IN
+                   /\ Prefix(enc, r.listbits)
+                   /\ Len(r.listbits) - Len(enc) < 8
+                   /\ AllZero(SubSeq(r.listbits, Len(enc) + 1, Len(r.listbits)))
               \* decoding returns exactly the same entries (bias bit patterns included), grouped by ascending satellite
               /\ r.dec = "typed"
               /\ r.entries_out = InObs(r, Regrouped(num, es))
